@@ -215,6 +215,25 @@ static Json::Value genC18(Rng& rng) {
     }
   }
   plan["ops"] = ops;
+  // the kernel refuses some of senpai's writes (memory.reclaim answers EAGAIN
+  // when it could not reclaim all that was asked; a limit write can fail with
+  // EBUSY/EINVAL/EIO): whatever was changed on the way must still be put back
+  if (rng.chance(0.3)) {
+    int nf = (int)rng.range(1, 2);
+    for (int i = 0; i < nf; i++) {
+      Json::Value f(Json::objectValue);
+      f["k"] = "write-error";
+      f["file"] = rng.pick<std::string>(
+          {"memory.reclaim", "memory.reclaim", "memory.high", "memory.high.tmp", "*"});
+      f["cg"] = rng.chance(0.5) && !paths.empty() ? rng.pick(paths)
+                                                  : std::string("*");
+      f["tick"] = rng.chance(0.6) ? (int)rng.range(0, ticks - 1) : -1;
+      if (rng.chance(0.3))
+        f["nth"] = (int)rng.range(0, 3);
+      f["errno"] = rng.pick({EAGAIN, EBUSY, EINVAL, EIO});
+      plan["faults"].append(f);
+    }
+  }
   plan["clock_off"] = (Json::Int64)rng.range(0, 999999999);
   return plan;
 }
@@ -266,6 +285,7 @@ static void runC18() {
     size_t ev;
   };
   std::optional<Pending> pendingPoke;
+  std::set<int> restartAllowed; // a limit write was refused since the last one
   int origSwappiness = -1;
   bool swappinessDirty = false;
   auto endTick = [&](int t) -> bool {
@@ -333,8 +353,20 @@ static void runC18() {
                   a["cgroup"]);
       return;
     }
-    if (e.res != 0)
-      continue; // the kernel refused it
+    if (e.res != 0) {
+      // the kernel refused it: nothing was written. A refused reset of a
+      // temporary poke is all senpai can do about it; after a refused limit
+      // write senpai stops tracking the cgroup and starts over (init write)
+      bool maxVal = e.b.compare(0, 3, "max") == 0 ||
+          strtoll(e.b.c_str(), nullptr, 10) == INT64_MAX;
+      if (e.a == "memory.high" || e.a == "memory.high.tmp") {
+        if (maxVal && pendingPoke && pendingPoke->inc == e.inc)
+          pendingPoke.reset();
+        restartAllowed.insert(e.inc);
+      }
+      probe("refused-writes");
+      continue;
+    }
     // reference floor / ceiling from the files of this tick
     ld usage = (ld)c->cur;
     ld fileCache = (ld)c->memstatGet("active_file") + c->memstatGet("inactive_file");
@@ -418,7 +450,8 @@ static void runC18() {
     int64_t fileLimit = c->has_high_tmp ? c->high_tmp : c->high;
     auto lw = lastWritten.find(e.inc);
     bool mismatch = lw != lastWritten.end() && lw->second != fileLimit;
-    bool okInit = !immediate && !isMax && (ld)v == usage && (first || mismatch);
+    bool okInit = !immediate && !isMax && (ld)v == usage &&
+        (first || mismatch || restartAllowed.count(e.inc));
     bool okAdjust = !immediate && !isMax && (v & 0xFFF) == 0 &&
         (ld)v >= floor_ - 4095 &&
         ((ld)v <= ceiling || (floor_ > ceiling && (ld)v <= floor_)) && !first;
@@ -445,6 +478,7 @@ static void runC18() {
     if (okInit) {
       inits++;
       lastWritten[e.inc] = v;
+      restartAllowed.erase(e.inc);
       continue;
     }
     if (okAdjust) {
